@@ -1,13 +1,14 @@
 #!/usr/bin/env python3
-"""usage: confirm_seed.py <pid> <k>   - re-confirms a seeded change produced by a sub-agent in its scratch worktree:
+"""usage: confirm_seed.py <pid> <k> [<worktree> <outdir of the sub-agent> <number to store under>]  - re-confirms a seeded change produced by a sub-agent in its scratch worktree:
 builds, baseline tests still pass, demo passes without and fails with the change; then runs the /verif check against it
 (applied to /repo and undone) and stores everything under /verif/seeded/<pid>-<k>/."""
 import sys, os, subprocess, json, shutil, re
 pid, k = sys.argv[1], sys.argv[2]
-W = '/tmp/seed_%s' % pid
-D = '/tmp/seedout_%s/%s' % (pid, k)
-OUT = '/verif/seeded/%s-%s' % (pid, k)
-env = dict(os.environ, CARGO_NET_OFFLINE='true', CARGO_TARGET_DIR='/tmp/seedout_%s/target' % pid)
+W = sys.argv[3] if len(sys.argv) > 3 else '/tmp/seed_%s' % pid
+DD = sys.argv[4] if len(sys.argv) > 4 else '/tmp/seedout_%s' % pid
+D = '%s/%s' % (DD, k)
+OUT = '/verif/seeded/%s-%s' % (pid, sys.argv[5] if len(sys.argv) > 5 else k)
+env = dict(os.environ, CARGO_NET_OFFLINE='true', CARGO_TARGET_DIR='%s/target' % DD)
 
 def sh(cmd, cwd=None, timeout=1800):
     p = subprocess.run(cmd, shell=True, cwd=cwd, env=env, capture_output=True, text=True, timeout=timeout)
